@@ -48,7 +48,7 @@ impl Prop for C29 {
     "case kinds: `index` = random vector schema (1-2 fields, dim 1-8, Cosine/L2, optional hnsw m/ef_construction), 1-4 add commits (= segments) with missing/null vectors, delete-only commits and upserts in between, then 4-8 requests (single vector clause, bool/dis_max of several clauses, hybrid via vector_query tuple/object, hybrid bool, filter/vector_filter, explicit k/candidate_size/ef_search/boost/alpha, wrong dimension and other invalid parameters), optionally followed by compact(); `hnsw` = HnswIndex built directly on a random store and searched with random (k, ef); `baddoc` = document whose vector has the wrong dimension. One evaluation = one request (or one hnsw search / one bad document). A request is non-trivial when it is rejected for its dimension, or when it returns at least one hit with a vector_score while the index holds at least one ineligible vector document (deleted, filtered out, missing vector) or at least two eligible ones; an hnsw search is non-trivial when the store has at least 2 vectors."
   }
   fn count(&self, tier: Tier) -> usize {
-    tier.pick(260, 10000)
+    tier.pick(260, 6000)
   }
   fn gen(&self, rng: &mut Rng, tier: Tier, i: usize) -> Value {
     imp::gen(rng, tier, i)
@@ -409,6 +409,7 @@ mod imp {
   }
 
   #[derive(Clone)]
+  #[allow(dead_code)]
   struct Ver {
     ver: String,
     seg: usize,
